@@ -348,6 +348,10 @@ class Interp(Engine):
             obj = v.const
             if isinstance(obj, PyExc):
                 raise Unsupported("attribute of exception object")
+            if isinstance(obj, EmptyLit):
+                # {} / [] used as an object: it is a plain dynamic dict / list
+                self.materialize(st, v, KDict(KStr, KVal) if obj.what == "dict" else KList(KVal))
+                return self.getattr(st, v, attr, node)
             if isinstance(obj, tuple) and obj and obj[0] == "specfunc":
                 raise Unsupported("attr of specfunc")
             try:
@@ -590,6 +594,14 @@ class Interp(Engine):
         if not node.elts:
             return SV(KConst, None, const=EmptyLit("list"))
         items = [self.eval(st, e) for e in node.elts]
+        if not self.spec_mode:
+            for n_, it in enumerate(items):
+                if isinstance(it.kind, KOpt):
+                    O = sort_of(it.kind)
+                    if st.branch(O.is_some(it.term), "opt-elem"):
+                        items[n_] = SV(it.kind.inner, O.v(it.term))
+                    else:
+                        items[n_] = NONE
         ek = items[0].kind
         for it in items[1:]:
             if it.kind != ek:
@@ -868,6 +880,15 @@ class Interp(Engine):
             return self.inline_call(st, fi, args, kwargs, node, None)
         if c is not None and not c.inline and not self.spec_mode:
             return self.apply_contract(st, fi, c, args, kwargs, node)
+        if c is not None and c.trusted and self.spec_mode:
+            # pure context (comprehension element / spec clause): a trusted contract whose normal case has a
+            # `returns` expression denotes that value
+            for cs in c.cases:
+                if cs.raises is None and cs.returns is not None:
+                    env = self.bind_params(st, fi, args, kwargs, c, node)
+                    ctx = SpecCtx(dict(st.heap), dict(env), pre_nref=st.nref)
+                    return self.spec_value(st, cs.returns, ctx, env, fi.module, fi)
+            raise Unsupported("trusted contract of %s has no pure reading" % fi)
         if c is None and not self.inlinable(fi) and not self.spec_mode:
             raise Unsupported("no contract for %s and not inlinable (called at line %s)" % (fi, getattr(node, "lineno", "?")))
         return self.inline_call(st, fi, args, kwargs, node, c)
